@@ -186,6 +186,9 @@ func ForEco(name string) Scenario {
 		marked = append(marked, va+postM)
 	}
 	inputs = append(inputs, marked...)
+	if len(b) > 3 {
+		inputs = append(inputs, b[3])
+	}
 	// the same numbers with more components (padding the shorter side must not touch it)
 	longer := []string{vb + ".1", vb + ".0.1", vb + ".0.0.0.1"}
 	inputs = append(inputs, longer...)
@@ -302,6 +305,9 @@ func ForEco(name string) Scenario {
 	}
 	for _, m := range marked {
 		ops = append(ops, cmp(va, m), cmp(m, va))
+	}
+	if len(b) > 3 {
+		ops = append(ops, contains(r1, b[3]), contains(r2, b[3]))
 	}
 	// many comparisons of a deeply nested / very long version in ONE operation (depth counters,
 	// recursion guards and scratch state that leak a little per call)
